@@ -76,7 +76,8 @@ CHECKS = {
         "probe/spy leaves are swept over random mixes of scalar / length-1 / length-n values and malformed mixes, every sweep index compared "
         "with the model; (ii) EVERY bare library block (also inside a solver, and mode-expanded) is swept over each of its parameters and "
         "must equal bit-for-bit the stack of its scalar solves."
-        " Block table extended with UserWaveguide variants whose modes have different key sets, FPRGaussian with a callable slab index, and fine sweeps (values a few ppm apart, exact repeats). A third stream assigns SEVERAL parameters of every bare block at once (its own and ones it ignores) as scalar / length-1 / length-n mixes incl. inconsistent lengths; the model broadcasts and looks each point up in the table of /repo's scalar solves. On every run harness/translate_sweep.py also translates the CURRENT source of the sweep bookkeeping (Solver.solve: common length + broadcast; Model.solve: common length + the dictionary create_S sees at every point) to Gallina and coq/templates/SweepSrcProof.v proves it equal to Sweep.normalise / Sweep.sweep_solve for all assignments with distinct names (solver_normalise_src_is_normalise, model_sweep_src_is_sweep_solve; closed under the global context). Sweeps use complex parameter values (inside a solver and bare); the thermal phase shifter's index function depends on every documented argument (wl, R, w, pol) and each is swept. A fourth stream sweeps a phase section inside REFLECTIVE netlists (incl. reflector - phase - reflector chains) and compares slice k with the model's solve of the netlist of point k. Half of the even-length sweep arrays are passed as 2-D grids held in column-major memory order.",
+        " Block table extended with UserWaveguide variants whose modes have different key sets, FPRGaussian with a callable slab index, and fine sweeps (values a few ppm apart, exact repeats). A third stream assigns SEVERAL parameters of every bare block at once (its own and ones it ignores) as scalar / length-1 / length-n mixes incl. inconsistent lengths; the model broadcasts and looks each point up in the table of /repo's scalar solves. On every run harness/translate_sweep.py also translates the CURRENT source of the sweep bookkeeping (Solver.solve: common length + broadcast; Model.solve: common length + the dictionary create_S sees at every point) to Gallina and coq/templates/SweepSrcProof.v proves it equal to Sweep.normalise / Sweep.sweep_solve for all assignments with distinct names (solver_normalise_src_is_normalise, model_sweep_src_is_sweep_solve; closed under the global context). Sweeps use complex parameter values (inside a solver and bare); the thermal phase shifter's index function depends on every documented argument (wl, R, w, pol) and each is swept. A fourth stream sweeps a phase section inside REFLECTIVE netlists (incl. reflector - phase - reflector chains) and compares slice k with the model's solve of the netlist of point k. Half of the even-length sweep arrays are passed as 2-D grids held in column-major memory order."
+        " A further stream defines a solver parameter through add_param by a function whose result type depends on the value (real root for some sweep points, imaginary for others), flat and nested: sweep index k is still the scalar solve of the k-th value.",
    note="Trusted: Coq kernel + vm_compute; models Sweep.v/Params.v tied by sampled correspondence; for the block half the scalar solve of "
         "/repo is the oracle (its physics is C09's subject). Names re-defined by add_param at the solved level are not swept (they are no "
         "longer parameters). Follows the fixed code (F02, F27).",
